@@ -517,7 +517,9 @@ func init() {
 			re := (*args[0].(*value)).(nativeObj).o.(*regexp.Regexp)
 			src, isConc := args[1].(string)
 			if !isConc {
-				unsupported("regexp on symbolic string")
+				// regexp cannot be encoded: the symbolic bytes of the subject are case-split (enumeration, stated)
+				X.stub("regexp on a symbolic string: its bytes are enumerated")
+				src = concretizeString(args[1].(sstring))
 			}
 			return re.ReplaceAllStringFunc(src, func(m string) string {
 				return strOf(call(fr.i, fr, token.NoPos, args[2], []value{m}))
@@ -646,6 +648,15 @@ func extStringCompare(fr *frame, args []value) value {
 	z := termOf(int(0), types.Int)
 	p1 := termOf(int(1), types.Int)
 	return mkSym(types.Int, smt.Ite(lt, m1, smt.Ite(eq, z, p1)))
+}
+
+// concretizeString enumerates the symbolic bytes of s on this path.
+func concretizeString(s sstring) string {
+	bs := make([]byte, len(s))
+	for i, b := range s {
+		bs[i] = concretize(b).(uint8)
+	}
+	return string(bs)
 }
 
 type nativeObj struct{ o interface{} }
